@@ -100,6 +100,12 @@ class StorageReplayer:
                 from .. import faultfs
                 faultfs.reset(self.dir)
             self.st = FileStorage(self.path, **self.opts.get('fs_kw', {}))
+            if self.opts.get('wrap_demo'):
+                # the same behaviours through a DemoStorage whose changes are this FileStorage (empty base): every
+                # answer must be the FileStorage's (C05 / C16 on the third bundled storage)
+                from ZODB.DemoStorage import DemoStorage
+                from ZODB.MappingStorage import MappingStorage
+                self.st = DemoStorage(base=MappingStorage(), changes=self.st)
         else:
             from ZODB.MappingStorage import MappingStorage
             self.st = MappingStorage()
@@ -156,7 +162,7 @@ class StorageReplayer:
         def _blocked(signum, frame):
             raise _Blocked()
         old_handler = signal.signal(signal.SIGALRM, _blocked)
-        signal.setitimer(signal.ITIMER_REAL, self.opts.get('step_timeout', 8))
+        signal.setitimer(signal.ITIMER_REAL, self.opts.get('step_timeout', 20))
         if action in ('Store', 'StoreQuota', 'Restore', 'Delete') and len(args) >= 2:
             self.real_max = max(self.real_max, int(norm(args[1])) * self.stride)
         try:
@@ -255,8 +261,8 @@ class StorageReplayer:
                 finally:
                     self.fault_hit = faultfs.S.failed
                     faultfs.S.fail_at = None
-            elif action == 'NewOid' and self.stride != 1 and not self.opts.get('stride_new_oid'):
-                pass
+            elif action == 'NewOid' and ((self.stride != 1 and not self.opts.get('stride_new_oid')) or self.opts.get('wrap_demo')):
+                pass           # (a demo storage hands out random oids)
             elif action == 'NewOid' and self.stride != 1:
                 # oids spread over several index buckets: the expectation is the same rule (largest oid seen + 1)
                 # on the concrete numbers; the model's own number is not comparable
@@ -426,7 +432,7 @@ class StorageReplayer:
                                                 set(d) <= {'id', 'time', 'user_name', 'size', 'description'})
                     ul = st.undoLog(w[0], w[1], flt)
                     obs['ulw'][w][m] = tuple(T.model(base64.decodebytes(d['id'] + b'\n')) for d in ul)
-        if self.kind == 'file' and 'linv' in mo:
+        if self.kind == 'file' and 'linv' in mo and not self.opts.get('wrap_demo'):
             obs['linv'] = {n: tuple({'tid': T.model(t), 'oids': tuple(self.U(o) for o in oids)} for t, oids in st.lastInvalidations(n))
                            for n in mo['linv']}
             ri = {}
@@ -491,6 +497,8 @@ class StorageReplayer:
             mo['iter'] = tuple(dict(t, recs=tuple(sorted(t['recs'], key=lambda x: x['oid']))) for t in mo['iter'])
         if ltid is not None:
             mo = dict(mo, last=ltid)
+        if self.opts.get('wrap_demo'):
+            mo = {k_: v for k_, v in mo.items() if k_ not in ('linv', 'riter')}     # not offered by a demo storage
         if maxp is not None:
             # ... and where a snapshot below the pack time holds no state of an object, "unknown object" and "no
             # revision that early" are not told apart (which un-creation markers and older records survive is the
@@ -597,6 +605,13 @@ def replay_behaviour(job):
             mm = rp.step(a, step['args'], step['state'])
             what = 'outcome'
             ltid = step['state'].get('ltid')
+            if opts and opts.get('wrap_demo') and mm and a == 'Finish' and ' tid=' in mm[0]:
+                # a demo storage numbers its transactions from the last COMMITTED tid of its layers, a FileStorage from
+                # the last tid it handed out (aborted transactions included): after an abort within one clock second
+                # the numbers drift apart and the rest of the behaviour is not comparable with this model (ZDemo, C16,
+                # is the model of the demo storage; this pass looks for blocked calls and wrong outcomes before that)
+                result['tid_drift'] = True
+                break
             if ALIASES.get(a, a) in ('VoteFail', 'PackFail') and mm and not getattr(rp, 'fault_hit', 0):
                 result['fault_not_reached'] = True      # the vote issued fewer raw operations than fault_k: not a verdict
                 break
